@@ -119,6 +119,10 @@ def comprehension(models, eng, node, st, kind):
         raise OutOfReach('async comprehension')
     v = VIter('gen', node=node, env=dict(st.env))
     if kind == 'list':
+        if models.interface is not None:
+            r = models.interface.list_comprehension(eng, node, st)
+            if r is not None:
+                return r
         sv = gen_view(models, eng, v, st)
         if sv.n.op == 'int' and sv.n.args[0] <= 256:
             return [(st, st.alloc(OList(items=tuple(sv.at(I(j)) for j in range(sv.n.args[0]))), 'list'))]
@@ -580,7 +584,11 @@ def py_bytes(models, eng, args, kws, st):
         if a is not None:
             out.append((a, a0))
         if b is not None:
-            raise OutOfReach('bytes(dyn non-bytes)')
+            # bytes(x) for a non-bytes value of unknown type: some bytes object, or TypeError/ValueError
+            b2, b3 = b.clone(), b.clone()
+            out.extend(eng.raise_(b, 'TypeError', origin='bytes() of a value of another type'))
+            out.extend(eng.raise_(b2, 'ValueError', origin='bytes() of a value of another type'))
+            out.append((b3, eng.fresh_bytes(b3, 'bytesof')))
         return out
     raise OutOfReach('bytes(%r)' % (a0,))
 
